@@ -26,7 +26,6 @@ def variants(arg, thorough):
                 out.append((arg, g, r, mode, o, 'plain'))
     out.append((arg, 1, 1, 'build', 2 if thorough else 1, 'order2'))
     out.append((arg, 1, 0, 'step', 3 if thorough else 0, 'order3'))
-    out.append((arg, 1, 1, 'peek', 0, 'peek'))
     if len(pre) >= 2:
         out.append(({'prems': list(reversed(pre)), 'conc': arg['conc']}, 1, 1, 'build', 0, 'reversed'))
         out.append(({'prems': pre[1:] + pre[:1], 'conc': arg['conc']}, 0, 1, 'step', 1, 'rotated'))
